@@ -12,6 +12,8 @@ TECHNIQUE = {
  "C03": "value-flow to the bounding writer and bounded-use classification of its methods, path-sensitive nil-return exploration of writeBodyFixedSize, control-dependence of body emission on the no-body predicate, must-pass rules in SetContentLength, serve-loop HEAD exploration",
  "C02": "path-sensitive exploration of the serve loop's SSA CFG over a finite abstraction (event bits + boolean/nil facts): must-close / must-check obligations per iteration",
  "C04": "connection typestate in RoundTrip by path-sensitive exploration (dispose-exactly-once counter, pooled-only-after-clean-read), control-dependence of pooling in the stream-close closure, select-case typestate of pooled pipeline work items, per-item typestate of the pipeline writer",
+ "C40": "loop-carried tuple coupling by alias-tracking exploration of the selection loop, penalty pairing (counters in the abstract state), nil-result handling and panic reachability over the static call graph",
+ "C41": "semaphore pairing and select-case typestate by path-sensitive exploration of tryDial, provenance of the connect context's bound, wrap-on-return rule, must-pass rules in the rotation loop",
  "C05": "backward cleanliness (taint) analysis with sanitiser classes over SSA: reaching definitions of scratch fields, in-place and returning neutraliser summaries, call-site resolution of helper parameters, induction over checked storage fields; neutraliser shape precondition",
  "C06": "as C05 with two sanitiser classes (CR/LF and ';') for Cookie fields and the request cookie list",
  "C07": "limit-flow: interprocedural propagation of limit parameters, use classification (compared / limited reader / forwarded), loop-carried staleness of the serve loop's limit variable, must-pass rules on the error response path",
